@@ -31,7 +31,12 @@ def jobs(tier, seed):
             for order in (0, 1):
                 if tier == "quick" and (edit + order) % 2 == 1 and ver in (FO3, FO76):
                     continue
-                J.append(dict(entry="h_c11", args=[ver, feat, edit, order], budget=bud, mod="fmedit"))
+                J.append(dict(entry="h_c11", args=[ver, feat, edit, order, 0], budget=bud, mod="fmedit"))
+    # the source is the model as built in memory (not loaded); strips, a data-less first shape, a derived bone type
+    for ver, feat in [(SK, STRIPS | DATALESS), (FO3, DATALESS | SKIN), (OB, STRIPS | SKIN), (SSE, SKIN | BONETYPE), (FO4, SKIN)]:
+        for edit in (1, 4) if tier == "quick" else range(5):
+            for kind in (0, 1):
+                J.append(dict(entry="h_c11", args=[ver, feat, edit, (edit + kind) % 2, kind], budget=bud, mod="fmedit"))
     # block level: Clone() of every registered block type on symbolic input (NifFile's copy clones every block)
     J += [dict(j, mod="fblock") for j in fblock.jobs_for("h_clone", tier, seed, budget_quick=5, budget_thorough=90)]
     return J
